@@ -27,13 +27,6 @@ def dateLe (a b : Date) : Bool :=
 
 def dateLt (a b : Date) : Bool := dateLe a b && a != b
 
-/-- lexicographic comparison by code point (Python `str <`, SQLite BINARY) -/
-def strLt : Str → Str → Bool
-  | [], [] => false
-  | [], _ :: _ => true
-  | _ :: _, [] => false
-  | a :: as, b :: bs => a.toNat < b.toNat || (a == b && strLt as bs)
-
 def isInfix (v b : Str) : Bool := (List.range (b.length + 1)).any (fun i => v.isPrefixOf (b.drop i))
 
 def lowerStr (s : Str) : Str := s.map lowerAscii
